@@ -22,6 +22,7 @@ import (
 	"github.com/ajitpratap0/GoSQLX/pkg/linter/rules/whitespace"
 	"github.com/ajitpratap0/GoSQLX/pkg/metrics"
 	"github.com/ajitpratap0/GoSQLX/pkg/sql/ast"
+	sqlkeywords "github.com/ajitpratap0/GoSQLX/pkg/sql/keywords"
 	"github.com/ajitpratap0/GoSQLX/pkg/sql/security"
 	"github.com/ajitpratap0/GoSQLX/pkg/sql/tokenizer"
 )
@@ -302,6 +303,41 @@ func c10ops() []c10op {
 			return d
 		}},
 		{"stats", func(in string) string { _ = metrics.GetStats(); return "" }},
+		// instances configured for another dialect, used next to the default ones (these come last: the sequential oracle
+		// of the operations above is taken before any dialect was ever selected in this process)
+		{"tokenize-dialects", func(in string) string {
+			var b strings.Builder
+			for _, d := range sqlkeywords.AllDialects() {
+				t, err := tokenizer.NewWithDialect(d)
+				if err != nil {
+					continue
+				}
+				toks, terr := t.Tokenize([]byte(in))
+				b.WriteString(string(d) + ":" + fmtToks(toks) + "|" + errCode(terr) + ";")
+			}
+			return b.String()
+		}},
+		{"set-dialect-pooled", func(in string) string {
+			t := tokenizer.GetTokenizer()
+			defer tokenizer.PutTokenizer(t)
+			ds := sqlkeywords.AllDialects()
+			t.SetDialect(ds[len(in)%len(ds)])
+			toks, err := t.Tokenize([]byte(in))
+			return fmtToks(toks) + "|" + errCode(err)
+		}},
+		{"parse-dialects", func(in string) string {
+			var b strings.Builder
+			for _, d := range sqlkeywords.AllDialects() {
+				tree, err := parser.ParseWithDialect(in, d)
+				if err != nil {
+					b.WriteString(string(d) + ":ERR " + errCode(err) + ";")
+					continue
+				}
+				b.WriteString(string(d) + ":" + dumpNode(tree) + ";")
+				ast.ReleaseAST(tree)
+			}
+			return b.String()
+		}},
 	}
 }
 
@@ -331,6 +367,23 @@ func runC10Workload(c *runCtx) {
 	g := newSQLGen(c.rng.Fork())
 	for i := 0; i < c.n(60, 400); i++ {
 		inputs = append(inputs, g.Statement())
+	}
+	// words that only some dialect reserves, used as plain names in default-dialect statements
+	{
+		seen := map[string]bool{}
+		for _, d := range sqlkeywords.AllDialects() {
+			for _, kw := range sqlkeywords.DialectKeywords(d) {
+				w := strings.ToLower(kw.Word)
+				if seen[w] || strings.ContainsAny(w, " ") {
+					continue
+				}
+				seen[w] = true
+				st := "SELECT " + w + " FROM t WHERE " + w + " = 1"
+				if _, err := gosqlx.Parse(st); err == nil && len(seen) <= 400 {
+					inputs = append(inputs, st)
+				}
+			}
+		}
 	}
 	// sequential oracle
 	oracle := make([][]string, len(ops))
